@@ -4,8 +4,10 @@
   <PAIR>_qs.cfg  quick,    structure: links, copies (plain / extent / other workspace), copies of copies, re-open,
                                       one edit once the copies exist (isolation)
   <PAIR>_qe.cfg  quick,    edits:     public setters from both sides around link / copy / re-open
-  <PAIR>_ts.cfg  thorough, structure: deeper, boolean masks and extents, second mask, other workspace + extent
-  <PAIR>_te.cfg  thorough, edits:     every setter of the pair, three values, rejected values, deeper
+  <PAIR>_ts.cfg  thorough, structure: boolean masks and extents, second mask, other workspace + extent, isolation edits
+                                      through channels and timing_mark (DC / MT: depth 6, three copies, two re-opens)
+  <PAIR>_te.cfg  thorough, edits:     every setter of the pair, rejected values, depth 4, cross-workspace copies
+  (the thorough tier also runs the two quick configurations)
   <PAIR>_asbuilt.cfg  negative control: Deviations = KnownDevs, TLC must report a violated invariant
 Run:  cd /verif/spec/survey && /venv/bin/python gen_cfgs.py
 """
@@ -45,6 +47,7 @@ PROPERTY ReopenResolves
 PROPERTY CopyCopiesPartner
 PROPERTY EditIsLocal
 PROPERTY RefusedIsNoop
+PROPERTY ValidEditsAccepted
 """
 EXPORT = """INVARIANT ExportState
 ACTION_CONSTRAINT ExportTrans
@@ -84,8 +87,9 @@ def main():
         files = {
             "qs": cfg(pair, QS_DEPTH[pair], 2, 1, 1, ["channels"], q_modes, ["lo"], 1, "copied"),
             "qe": cfg(pair, 3, 1, 2, 1, QUICK_OPS[pair], ["plain-same"], ["lo"], 2, "always"),
-            "ts": cfg(pair, 5, 2, 1, 1, ["channels", "timing_mark"], t_modes, ["lo", "mid"], 1, "copied"),
-            "te": cfg(pair, 4, 1, 2, 1, ALL_OPS, ["plain-same", "plain-other"], ["lo"], 3, "always", bad=True),
+            "ts": (cfg(pair, 6, 3, 1, 2, ["channels"], t_modes, ["lo", "mid"], 1, "copied") if pair in ("DC", "MT")
+                   else cfg(pair, 4, 2, 1, 1, ["channels", "timing_mark"], t_modes, ["lo", "mid"], 1, "copied")),
+            "te": cfg(pair, 4, 1, 2, 1, ALL_OPS, ["plain-other"], ["lo"], 2, "always", bad=True),
             "asbuilt": cfg(pair, 3, 1, 2, 1, QUICK_OPS[pair], ["plain-same", "extent-same"], ["lo"], 2, "always", devs=KNOWN,
                            export=False),
         }
